@@ -57,7 +57,8 @@ func funcAbs(ctx *Context, this *VMValue, params []*VMValue) *VMValue {
 		return v
 	case VMTypeFloat:
 		val := v.MustReadFloat()
-		if val < 0 {
+		if val < 0 || math.Signbit(val) {
+			// Signbit: abs(-0.0) 是 0，而不是 -0
 			return NewFloatVal(-val)
 		}
 		return v
